@@ -353,3 +353,23 @@ def in_macro(body, block, names):
 def stmt_in_macro(stmt, names):
     ms = stmt["span"].get("macros", [])
     return any(any(n in m for n in names) for m in ms)
+
+
+def root_local(body, operand, depth=12):
+    """Follow plain moves/copies of bare locals back to the user-named (or multiply-defined) local."""
+    l = op_local(operand)
+    p = op_place(operand)
+    if l is None or (p and p["proj"]):
+        return l
+    while depth > 0:
+        depth -= 1
+        if body.names.get(l):
+            return l
+        ds = [d for d in body.defs().get(l, []) if d["kind"] != "mutcall"]
+        if len(ds) != 1 or ds[0]["kind"] != "assign" or ds[0]["stmt"]["rv"]["k"] != "use":
+            return l
+        p2 = op_place(ds[0]["stmt"]["rv"]["op"])
+        if p2 is None or p2["proj"]:
+            return l
+        l = p2["local"]
+    return l
